@@ -23,12 +23,25 @@ const INTERVAL: u64 = 4;
 
 type Sym = u8; // 0 = H, 1 = X, 2 = Y
 
+thread_local! {
+    /// values of the current case are NOT chained: the value at an index depends on the index and
+    /// its own symbol only (what a deviating peer may send: a vector that differs from the others at
+    /// one index and agrees with them again at a later one)
+    static UNCHAINED: std::cell::Cell<bool> = std::cell::Cell::new(false);
+}
+
 fn value_of(start: &packed::Byte32, prefix: &[Sym]) -> packed::Byte32 {
     if prefix.is_empty() {
         return start.clone();
     }
     let mut data = start.as_slice().to_vec();
-    data.extend_from_slice(prefix);
+    if UNCHAINED.with(|u| u.get()) {
+        data.push(0xfe);
+        data.extend_from_slice(&(prefix.len() as u64).to_le_bytes());
+        data.push(*prefix.last().unwrap());
+    } else {
+        data.extend_from_slice(prefix);
+    }
     ckb_hash::blake2b_256(&data).pack()
 }
 
@@ -55,6 +68,8 @@ struct Case {
     schedule: Schedule,
     /// finalise with a first set of peers, restart, continue with new peers from that index
     restart_after_first_tick: bool,
+    /// see UNCHAINED (the progress oracle (d) reasons about prefixes and is not evaluated then)
+    unchained: bool,
 }
 
 struct Runner<'a> {
@@ -83,6 +98,7 @@ impl<'a> Runner<'a> {
     }
 
     fn run_case(&mut self, case: &Case, case_id: &str) {
+        UNCHAINED.with(|u| u.set(case.unchained));
         self.fresh_client(case.max_outbound);
         let q = ((case.max_outbound + 1) / 2) as usize;
         let tip = forge_vh(
@@ -257,9 +273,11 @@ impl<'a> Runner<'a> {
             // every index in (previous final, i]
             if final_after > final_before {
                 self.finalized_events += 1;
+                // (the property's wording: the same value for it and for every check point SINCE THE
+                // PREVIOUSLY FINAL ONE; with chained values that is agreement on the whole prefix)
                 let supporters = reported
                     .iter()
-                    .filter(|(_, v)| v.len() > final_after && v[..=final_after] == stored[..=final_after])
+                    .filter(|(_, v)| v.len() > final_after && v[final_before..=final_after] == stored[final_before..=final_after])
                     .count();
                 if supporters < q {
                     self.report.violation(
@@ -275,7 +293,7 @@ impl<'a> Runner<'a> {
             // (d) progress: if >= q proven peers agree up to i and fewer than q are shorter or
             // different, i is final after the tick (peers contradicting the previous final value
             // are banned first and do not count)
-            {
+            if !case.unchained {
                 let eligible: Vec<&(usize, Vec<packed::Byte32>)> = reported
                     .iter()
                     .filter(|(_, v)| v.len() > final_before && v[final_before] == stored_prev[final_before])
@@ -313,6 +331,12 @@ impl<'a> Runner<'a> {
             }
             // (c) a proven peer contradicting the previously final value is banned at this tick
             for (p, v) in &reported {
+                // (observation, no verdict: a vector that contradicts an OLDER final value but agrees
+                // at the last final index - only unchained vectors can - is not compared there any
+                // more; every final value still had its quorum)
+                if v.len() > final_before && v[final_before] == stored_prev[final_before] && (0..final_before).any(|k| v[k] != stored_prev[k]) && !bans.contains(&(p + 1)) {
+                    self.report.count("observation/peer_contradicting_an_older_final_value_not_banned", 1);
+                }
                 let contradicts = v.len() > final_before && v[final_before] != stored_prev[final_before];
                 let banned = bans.contains(&(p + 1));
                 if contradicts && !banned && reported.len() >= q {
@@ -446,9 +470,42 @@ pub(crate) fn run(opts: &Opts, report: &mut Report) {
     // work items: (number of proven peers, first peer's vector index) so that workers share load
     let len_full = if thorough { 3 } else { 2 };
     let vectors = all_vectors(len_full);
-    let items = vectors.len();
+    // unchained vectors over H/X up to length 3 (thorough: H/X/Y)
+    let uvectors: Vec<Vec<Sym>> = all_vectors(3).into_iter().filter(|v| thorough || v.iter().all(|s| *s < 2)).collect();
+    let items = vectors.len() + uvectors.len();
     let worker = crate::verif::props::shard::run("C07", opts, report, items, 16, |item, report| {
         let env = Env::dummy();
+        if item >= vectors.len() {
+            // unchained pass: 2 and 3 proven peers, the first one's vector fixed by the work item
+            let first = uvectors[item - vectors.len()].clone();
+            let mut runner = Runner { env: &env, client: None, report, ticks: 0, deliveries: 0, finalized_events: 0, bans_seen: 0 };
+            let mut cases = 0u64;
+            for max_outbound in 1..=4u32 {
+                for v2 in &uvectors {
+                    for sched in [Schedule::AllThenTick, Schedule::RoundRobin] {
+                        runner.run_case(&Case { max_outbound, vectors: vec![first.clone(), v2.clone()], unproven: None, schedule: sched, restart_after_first_tick: false, unchained: true }, &format!("u2/{}/{}", sym_name(&first), sym_name(v2)));
+                        cases += 1;
+                    }
+                    for v3 in &uvectors {
+                        if v3 < v2 {
+                            continue;
+                        }
+                        runner.run_case(&Case { max_outbound, vectors: vec![first.clone(), v2.clone(), v3.clone()], unproven: None, schedule: Schedule::AllThenTick, restart_after_first_tick: false, unchained: true }, &format!("u3/{}/{}/{}", sym_name(&first), sym_name(v2), sym_name(v3)));
+                        cases += 1;
+                    }
+                }
+            }
+            let (t, d, f, b) = (runner.ticks, runner.deliveries, runner.finalized_events, runner.bans_seen);
+            drop(runner);
+            report.count("states", cases);
+            report.count("unchained_cases", cases);
+            report.count("transitions", t + d);
+            report.count("ticks", t);
+            report.count("check_point_messages", d);
+            report.count("finalisation_events", f);
+            report.count("bans", b);
+            return;
+        }
         let first = vectors[item].clone();
         let mut runner = Runner {
             env: &env,
@@ -466,21 +523,21 @@ pub(crate) fn run(opts: &Opts, report: &mut Report) {
         };
         for max_outbound in 1..=4u32 {
             // n = 1
-            run(&mut runner, Case { max_outbound, vectors: vec![first.clone()], unproven: Some(vec![2, 2]), schedule: Schedule::AllThenTick, restart_after_first_tick: false }, format!("n1/{}", sym_name(&first)));
+            run(&mut runner, Case { max_outbound, vectors: vec![first.clone()], unproven: Some(vec![2, 2]), schedule: Schedule::AllThenTick, restart_after_first_tick: false, unchained: false }, format!("n1/{}", sym_name(&first)));
             // n = 2, 3: full ordered assignments (first vector fixed by the work item)
             for v2 in &vectors {
                 for sched in [Schedule::AllThenTick, Schedule::RoundRobin, Schedule::PeerByPeer(vec![0, 1]), Schedule::PeerByPeer(vec![1, 0])] {
-                    run(&mut runner, Case { max_outbound, vectors: vec![first.clone(), v2.clone()], unproven: None, schedule: sched, restart_after_first_tick: false }, format!("n2/{}/{}", sym_name(&first), sym_name(v2)));
+                    run(&mut runner, Case { max_outbound, vectors: vec![first.clone(), v2.clone()], unproven: None, schedule: sched, restart_after_first_tick: false, unchained: false }, format!("n2/{}/{}", sym_name(&first), sym_name(v2)));
                 }
                 for v3 in &vectors {
                     let vs = vec![first.clone(), v2.clone(), v3.clone()];
-                    run(&mut runner, Case { max_outbound, vectors: vs.clone(), unproven: Some(vec![1]), schedule: Schedule::AllThenTick, restart_after_first_tick: false }, format!("n3/{}/{}/{}", sym_name(&first), sym_name(v2), sym_name(v3)));
-                    run(&mut runner, Case { max_outbound, vectors: vs.clone(), unproven: None, schedule: Schedule::RoundRobin, restart_after_first_tick: false }, format!("n3rr/{}/{}/{}", sym_name(&first), sym_name(v2), sym_name(v3)));
+                    run(&mut runner, Case { max_outbound, vectors: vs.clone(), unproven: Some(vec![1]), schedule: Schedule::AllThenTick, restart_after_first_tick: false, unchained: false }, format!("n3/{}/{}/{}", sym_name(&first), sym_name(v2), sym_name(v3)));
+                    run(&mut runner, Case { max_outbound, vectors: vs.clone(), unproven: None, schedule: Schedule::RoundRobin, restart_after_first_tick: false, unchained: false }, format!("n3rr/{}/{}/{}", sym_name(&first), sym_name(v2), sym_name(v3)));
                     if first.len() <= 2 && v2.len() <= 2 && v3.len() <= 2 {
                         // order exploration: every peer order, tick after every chunk
                         for perm in permutations(3) {
-                            run(&mut runner, Case { max_outbound, vectors: vs.clone(), unproven: None, schedule: Schedule::TickAfterEveryChunk(perm.clone()), restart_after_first_tick: false }, format!("n3ord/{}/{}/{}", sym_name(&first), sym_name(v2), sym_name(v3)));
-                            run(&mut runner, Case { max_outbound, vectors: vs.clone(), unproven: None, schedule: Schedule::PeerByPeer(perm), restart_after_first_tick: false }, format!("n3pbp/{}/{}/{}", sym_name(&first), sym_name(v2), sym_name(v3)));
+                            run(&mut runner, Case { max_outbound, vectors: vs.clone(), unproven: None, schedule: Schedule::TickAfterEveryChunk(perm.clone()), restart_after_first_tick: false, unchained: false }, format!("n3ord/{}/{}/{}", sym_name(&first), sym_name(v2), sym_name(v3)));
+                            run(&mut runner, Case { max_outbound, vectors: vs.clone(), unproven: None, schedule: Schedule::PeerByPeer(perm), restart_after_first_tick: false, unchained: false }, format!("n3pbp/{}/{}/{}", sym_name(&first), sym_name(v2), sym_name(v3)));
                         }
                     }
                     // n = 4: the fourth vector from the short ones (multiset reduction: the tally
@@ -488,13 +545,13 @@ pub(crate) fn run(opts: &Opts, report: &mut Report) {
                     let short = all_vectors(if thorough { 2 } else { 1 });
                     for v4 in &short {
                         let vs4 = vec![first.clone(), v2.clone(), v3.clone(), v4.clone()];
-                        run(&mut runner, Case { max_outbound, vectors: vs4, unproven: None, schedule: Schedule::AllThenTick, restart_after_first_tick: false }, format!("n4/{}/{}/{}/{}", sym_name(&first), sym_name(v2), sym_name(v3), sym_name(v4)));
+                        run(&mut runner, Case { max_outbound, vectors: vs4, unproven: None, schedule: Schedule::AllThenTick, restart_after_first_tick: false, unchained: false }, format!("n4/{}/{}/{}/{}", sym_name(&first), sym_name(v2), sym_name(v3), sym_name(v4)));
                     }
                 }
             }
             // restart after the first finalisation
             for v2 in &vectors {
-                run(&mut runner, Case { max_outbound, vectors: vec![first.clone(), v2.clone()], unproven: None, schedule: Schedule::RoundRobin, restart_after_first_tick: true }, format!("restart/{}/{}", sym_name(&first), sym_name(v2)));
+                run(&mut runner, Case { max_outbound, vectors: vec![first.clone(), v2.clone()], unproven: None, schedule: Schedule::RoundRobin, restart_after_first_tick: true, unchained: false }, format!("restart/{}/{}", sym_name(&first), sym_name(v2)));
             }
         }
         let (t, d, f, b) = (runner.ticks, runner.deliveries, runner.finalized_events, runner.bans_seen);
@@ -517,5 +574,5 @@ pub(crate) fn run(opts: &Opts, report: &mut Report) {
     report.set("bounds", json!({"max_outbound": "1..4", "proven_peers": "1..4", "vector_length_full": len_full, "symbols": "H,X,Y (chained values)", "orders": "all 6 peer orders with a tick after every chunk and peer-by-peer, for 3 peers with vectors of length <= 2"}));
     report.sample(json!({"max_outbound": 3, "quorum": 2, "vectors": ["HH", "HX", "H"], "schedule": "RoundRobin", "expect": "index 1 final (H agreed by 3), index 2 not final (HH vs HX, one each)"}));
     report.assume("a banned peer is disconnected by the network layer (the harness calls `disconnected`)");
-    report.assume("check point values are chained (a value determines its whole prefix), as block filter hashes are");
+    report.assume("honest check point values are chained (a value determines its whole prefix), as block filter hashes are; the unchained pass (vectors that differ at one index and agree again later, as only a deviating peer can send) evaluates the safety oracles only");
 }
